@@ -152,7 +152,7 @@ def _dest(names):
 SPEC_ARGS = {
     ('<global>', 'file'): {'type': 'file_'},
     ('<global>', 'testnet'): {'action': 'store_true'},
-    ('<global>', 'paranoia'): {'action': 'store_true'},
+    ('<global>', 'paranoia'): {'action': ('one-of', 'store_true', 'count')},      # a flag; main() uses its truth value
     ('<global>', 'account'): {'type': 'account_index', 'default': 0},
     ('<global>', 'interval'): {'type': 'address_index', 'nargs': 2, 'default': [0, 20]},
     ('new', 'password'): {'type': 'str', 'default': ''},
@@ -255,7 +255,8 @@ def run(ctx):
                     got = node.id if isinstance(node, ast.Name) else (ast.literal_eval(node) if isinstance(node, (ast.Constant, ast.List, ast.Tuple)) else ast.unparse(node))
                 if k == 'type' and want == 'str' and node is None:
                     got = 'str'
-                ob.require(got == want or (isinstance(want, list) and isinstance(got, (list, tuple)) and list(got) == want),
+                ob.require(got == want or (isinstance(want, list) and isinstance(got, (list, tuple)) and list(got) == want)
+                           or (isinstance(want, tuple) and want and want[0] == 'one-of' and got in want[1:]),
                            'argument %s of %s: %s must be %r' % (key[1], key[0], k, want), where, expected=want, found=got)
         # argparse copies a sub-parser's namespace (defaults included) over the parent's: a destination declared on
         # both levels silently loses the value given in front of the sub-command
@@ -398,8 +399,10 @@ def run(ctx):
                                    found='%s in %s' % (d, fi.qual))
         ob.require(n_out >= 1 and n_open >= 1, 'the stdout writer and the file creator were found (positive control)', pprint.where,
                    found='%d stdout writes, %d opens' % (n_out, n_open))
+        main_closure = set(p.reachable_from([fmain])) | {fmain}
         for cs in p.callers_of(pprint):
-            ob.require(cs.caller is fmain, 'pprint is called outside main()', cs.where)
+            ob.require(cs.caller is not None and cs.caller in main_closure and cs.caller.module is fmain.module,
+                       'pprint is called outside main() and the helpers main() is split into', cs.where)
         for cs in p.callers_of(etf):
             ok = cs.caller is not None and cs.caller.name in ('export_wallet', 'export_wasabi')
             ob.require(ok, 'export_to_file is called outside export_wallet/export_wasabi', cs.where)
@@ -412,6 +415,8 @@ def run(ctx):
         ob.require(excl or validated, 'an existing file can be overwritten: export_to_file does not create exclusively and --file is '
                    'not validated by file_', etf.where)
     check_sinks(ctx, 'C20.SINKS')
+    from .C11 import check_regex_anchors
+    check_regex_anchors(ctx, 'C20.REGEX', [p.get_module('__main__')])
     # "filtered when paranoia mode is on": the filtered value must survive the sinks' falsy-data fall-back
     from .C15 import run as _c15run
     sub = ctx.__class__('C20', ctx.tier, ctx.p, ctx.seed)
@@ -447,7 +452,10 @@ def check_sinks(ctx, rule):
         e3 = Evaluator(p, 'ecdsa', summaries=summ)
         e3.call_function('paper_wallet.PaperWallet.pprint', [w], {'data': data}, facts=nonempty)
         writes = [e for e in e3.effects if e[0] == 'stream-write' and e[3].startswith('sys.stdout')]
-        ok = bool(writes) and writes[0][4] == (T.raw_op('JSONCALL', w, data, T.const(4)),)
+        # what reaches standard output, in order, is the JSON of the data (then, at most, the line terminator)
+        text = T.cat(*[x for e in writes for x in e[4]]) if writes else None
+        js = T.raw_op('JSONCALL', w, data, T.const(4))
+        ok = bool(writes) and (text == js or text == T.cat(js, X.ext_value('os.linesep')) or text == T.cat(js, T.const('\n')))
         ob.require(ok, 'pprint(data=d) must write json(data=d, indent=4) to standard output', fpp.where,
                    found=[tuple(T.show(x, maxdepth=3) for x in e[4]) for e in writes])
         ob.require(not [e for e in e3.effects if e[0] == 'stream-write' and not e[3].startswith('sys.stdout')],
